@@ -620,3 +620,18 @@ canary('c12-tuple-elements-first', 'C12', TERM, """                (OwnedTerm::T
                     a.len().cmp(&b.len())
                 }""", 'size-first')
 canary('c12-borrowed-rank', 'C12', BOR, "                BorrowedTerm::Map(_) => 7,", "                BorrowedTerm::Map(_) => 5,", 'rank')
+
+# ---- C14 ----
+canary('c14-const-mask-writer', 'C14', ENCF, "let long_atoms_mask = if atoms.len() % 2 == 0 { 0x01 } else { 0x10 };", "let long_atoms_mask = 0x01;", 'constant-longatoms-mask')
+canary('c14-const-mask-reader', 'C14', DEC, """    let long_atoms_mask = if num_atom_cache_refs % 2 == 0 {
+        0x01
+    } else {
+        0x10
+    };""", "    let long_atoms_mask = 0x01;", 'constant-longatoms-mask')
+canary('c14-no-header-when-empty', 'C14', ENCF, "        buf.put_u8(VERSION);\n        buf.put_u8(DIST_HEADER);\n        buf.put_u8(0);\n", "        buf.put_u8(VERSION);\n", 'no-header')
+canary('c14-flags-len-writer', 'C14', ENCF, "let flags_len = (atoms.len() / 2) + 1;", "let flags_len = (atoms.len() + 1) / 2;", 'flags-length')
+canary('c14-fresh-cache', 'C14', CONN, "decoder::decode_with_atom_cache(&data, &mut self.atom_cache)?;", "decoder::decode_with_atom_cache(&data, &mut AtomCache::new())?;", 'fresh-cache')
+canary('c14-atom-len-unguarded', 'C14', ENCF, """        if atom_len > u16::MAX as usize {
+            return Err(EncodeError::AtomTooLarge { size: atom_len });
+        }
+""", "", 'C14.4-cast')
